@@ -233,8 +233,32 @@ def shard(desc):
     for n in desc.get('tie_lengths', []):
         # constant, periodic and symmetric inputs: partial results whose means are bit-identical meet in the reduction
         # (generic random data never produces that); schedule probe off (it needs distinct values)
-        for kind in ('constant', 'period2', 'period4', 'symmetric'):
+        for kind in ('constant', 'period2', 'period4', 'symmetric', 'specials'):
             a, b = rng.choice([1.5, -2.25, 1e6 + 0.125, 3.0e-5]), rng.choice([0.5, 7.0, -1.0])
+            if kind == 'specials':
+                # Min / Max only: infinities (the identity elements of the reduction), NaN, signed zeros among ordinary values
+                pool = rng.choice([[math.inf, 1.0, 2.0, 3.0], [-math.inf, -1.0, 5.0], [float('nan'), 1.0, -4.0],
+                                   [float('nan')], [math.inf, -math.inf, 0.0, -0.0, float('nan'), 2.5]])
+                xs = [rng.choice(pool) for _ in range(n)]
+                for typ in ('Min', 'Max'):
+                    th = rng.choice([1, 2, 3, 4])
+                    lo, hi = rng.choice([(0, 0), (1, 1), (2, 2)])
+                    mode = rng.choice(['v', 'r'])
+                    c = Case('%s-%d' % (desc['name'], k), typ, meta={'threads': th, 'min_len': lo, 'max_len': hi, 'mode': mode,
+                                                                   'delay_seed': 0, 'filter_seed': 0, 'n': len(xs), 'ties': kind})
+                    k += 1
+                    marks = []
+                    for r_ in range(2):
+                        c.op('P', r_, th, lo, hi, mode, 0, 0, xs)
+                        marks.append(c.op('O', r_))
+                    c.op('N', 20)
+                    c.op('A', 20, xs)
+                    seq_mark = c.op('O', 20)
+                    cases.append(c)
+                    plan.append((c, typ, typ, xs, marks, seq_mark, (id(xs), 0)))
+                    res.count('tie_collects', len(marks))
+                    res.count('special_value_collects', len(marks))
+                continue
             if kind == 'constant':
                 xs = [a] * n
             elif kind == 'period2':
